@@ -33,6 +33,7 @@ def run(ctx):
     e_start_under_live_parent(ctx, t)
     a_action_tracking(ctx, t)
     d_cleanup_keeps_reference(ctx, t)
+    d_deactivation(ctx, t)
     try:
         from . import C12
         C12.scope_pairing(ctx, "C06.c.scopes")
@@ -290,10 +291,25 @@ def e_start_under_live_parent(ctx, t):
     links = [n for n in cfg.nodes if n.kind == "stmt" and isinstance(n.ast, ast.Expr) and isinstance(n.ast.value, ast.Call)
              and isinstance(n.ast.value.func, ast.Attribute) and n.ast.value.func.attr == "append" and src(n.ast.value.func.value).endswith(".child_flow_uids")]
     ctx.floor("C06.e.live-parent", SM, "parent links created in _start_flow", len(links), 1)
+    # alternatively the StartFlow event is dropped where it is dispatched: every creation of the new instance lies in the else-part of a test that the sender has ended
+    disp = find_function(t, "_process_internal_events_without_default_matchers")
+    dispatch_guard = False
+    if disp is not None:
+        creations = [c for c in ast.walk(disp) if isinstance(c, ast.Call) and src(c.func) in ("add_new_flow_instance", "create_flow_instance")]
+        srcvars = {a.targets[0].id for a in ast.walk(disp) if isinstance(a, ast.Assign) and isinstance(a.targets[0], ast.Name) and "source_flow_instance_uid" in src(a.value) and "flow_states" in src(a.value)}
+        guards = [i for i in ast.walk(disp) if isinstance(i, ast.If) and re.search(r"_is_done_flow|is_listening_flow|is_active_flow|is_inactive_flow|\.status", src(i.test))
+                  and any(v in src(i.test) for v in srcvars)]
+        for g in guards:
+            in_else = all(any(c is x for st in g.orelse for x in ast.walk(st)) for c in creations)
+            in_body = any(any(c is x for st in g.body for x in ast.walk(st)) for c in creations)
+            if creations and in_else and not in_body:
+                dispatch_guard = True
     for l in links:
         parent = src(l.ast.value.func.value).rsplit(".", 1)[0]
         tests = [n for n in cfg.nodes if n.kind == "test" and cfg.dominates(n, l) and parent in src(n.ast)
                  and re.search(r"is_listening_flow|is_active_flow|is_inactive_flow|\.status", src(n.ast))]
+        if dispatch_guard and not tests:
+            tests = [True]
         ctx.check("C06.e.live-parent", SM, "_start_flow", first_line(l.ast), bool(tests),
                   "the new instance is linked to `%s` only after a liveness test of that parent" % parent if tests else
                   "the new instance is linked to `%s` without checking that this parent is still running: a StartFlow that is processed after its sender was stopped creates a child of a dead flow, which nobody stops any more" % parent,
@@ -325,8 +341,74 @@ def a_action_tracking(ctx, t):
                     if isinstance(x, ast.Subscript) and isinstance(x.slice, ast.Slice) and isinstance(x.value, ast.Attribute) and x.value.attr == "action_uids":
                         sites.append((fn, n, "`%s` replaces a slice of the list" % first_line(n, 70)))
     ctx.floor("C06.a.action-tracking", SM, "registrations of started actions (action_uids.append)", appends, 1)
+
+    def _is_release(st):
+        return (isinstance(st, ast.AugAssign) and isinstance(st.op, ast.Sub) and src(st.target).endswith(".flow_scope_count")) or \
+            (isinstance(st, ast.Assign) and src(st.targets[0]).endswith(".flow_scope_count") and re.search(r"flow_scope_count\s*-\s*1", src(st.value)))
+
+    def _block_of(node):
+        st = node
+        while st is not None and not isinstance(st, ast.stmt):
+            st = getattr(st, "_parent", None)
+        while st is not None:
+            par = getattr(st, "_parent", None)
+            for field in ("body", "orelse", "finalbody"):
+                blk = getattr(par, field, None)
+                if isinstance(blk, list) and any(x is st for x in blk):
+                    return blk, st
+            st = par
+        return [], None
+    # a removal that accompanies the release of the flow's share of that action (flow_scope_count decremented in the same block) is the release itself, not a loss
+    paired = []
+    for fn, n, why in list(sites):
+        blk, st = _block_of(n)
+        inner_blocks = [blk]
+        up = st
+        for _ in range(3):
+            par = getattr(up, "_parent", None)
+            if not isinstance(par, (ast.If, ast.While)):
+                break
+            b2, up = _block_of(par)
+            inner_blocks.append(b2)
+        if isinstance(n, ast.Call) and n.func.attr == "remove" and any(_is_release(x) for b in inner_blocks for x in b):
+            paired.append((fn, n))
+            sites.remove((fn, n, why))
     ctx.check("C06.a.action-tracking", SM, "<module>", "no removal from action_uids", not sites,
-              "started actions are only ever appended to a flow's action_uids (%d registration site(s)); nothing removes one while the flow lives" % appends, line=1)
+              "started actions are only ever appended to a flow's action_uids (%d registration site(s)); an action leaves the list only together with the release of the flow's share (%d site(s))" % (appends, len(paired)), line=1)
+    # release once (F87): a flow's share of an action is released either when the flow ends (the loops over action_uids in _abort_flow/_finish_flow) or earlier, at the end
+    # of the scope that started it - then the action must leave action_uids, otherwise the flow's end releases the share a second time and stops an action another flow shares
+    END_FNS = ("_abort_flow", "_finish_flow")
+
+    def _removes(blk):
+        return any(isinstance(c, ast.Call) and isinstance(c.func, ast.Attribute) and c.func.attr == "remove" and isinstance(c.func.value, ast.Attribute) and c.func.value.attr == "action_uids"
+                   for x in blk for c in ast.walk(x))
+    allfns = list(functions(t))
+    for fn in allfns:
+        if fn.name in END_FNS:
+            continue
+        rel_sites = [st for st in walk_no_nested(fn) if _is_release(st)]
+        if not rel_sites:
+            continue
+        # a helper that only releases: judged at its call sites
+        call_sites = [(g, c) for g in allfns if g is not fn for c in walk_no_nested(g) if isinstance(c, ast.Call) and isinstance(c.func, ast.Name) and c.func.id == fn.name]
+        if call_sites:
+            for g, c in call_sites:
+                if g.name in END_FNS:
+                    continue
+                blk, _ = _block_of(c)
+                ok = _removes(blk) or _removes(fn.body)
+                ctx.check("C06.a.release-once", SM, g.name, first_line(c, 60), ok,
+                          "the early release (through `%s`) takes the action off the flow's action_uids" % fn.name if ok else
+                          "`%s` releases the flow's share of the action before the flow ends but leaves it in action_uids: the flow's end releases it again and stops an action another "
+                          "running flow still shares" % first_line(c, 50), line=c.lineno)
+            continue
+        for st in rel_sites:
+            blk, _ = _block_of(st)
+            removed = _removes(blk)
+            ctx.check("C06.a.release-once", SM, fn.name, first_line(st, 60), removed,
+                      "the early release of the flow's share takes the action off the flow's action_uids, so the flow's end cannot release it again" if removed else
+                      "`%s` releases the flow's share of the action at the end of the scope but leaves it in action_uids: when the flow ends, _abort_flow/_finish_flow decrement the count "
+                      "again and send Stop for an action that another running flow still shares and awaits" % first_line(st, 50), line=st.lineno)
     for fn, n, why in sites:
         ctx.check("C06.a.action-tracking", SM, fn.name, first_line(n, 70), False,
                   "%s: if that action has not finished, the flow's end no longer sends its Stop event and the action outlives the flow" % why, line=n.lineno)
@@ -362,3 +444,54 @@ def d_cleanup_keeps_reference(ctx, t, rule="C06.d.cleanup-keeps-reference"):
                   "a flow state is collected only if `activated == 0` (a necessary conjunct of the removal condition)" if ok else
                   "an ended flow state can be collected while `activated > 0`: the reference instance that carries the activation counter disappears, the activator's end no longer "
                   "deactivates the restarted instance, which runs and restarts forever", line=a.lineno)
+
+
+def d_deactivation(ctx, t):
+    """`deactivate x` is one of several possible releases of ONE activation.  Where StopFlow/FinishFlow are dispatched by flow id with `deactivate`:
+    (i) only the reference instance (which carries the activation counter) may be asked to deactivate - the restarted instances are its children and are aborted by it when the
+    counter reaches zero; aborting them directly (with restart suppressed) kills the flow while other activations remain;
+    (ii) the activator's child-list entry for the reference instance is the activator's pending release - an explicit deactivation must consume it, otherwise the activator
+    releases the same activation again when it ends."""
+    disp = find_function(t, "_process_internal_events_without_default_matchers")
+    if disp is None:
+        raise AnalysisError("_process_internal_events_without_default_matchers not found", anchor=SM + "::dispatch")
+    loops = []
+    for l in ast.walk(disp):
+        if isinstance(l, ast.For) and "flow_id_states" in src(l.iter):
+            calls = [c for c in ast.walk(l) if isinstance(c, ast.Call) and src(c.func) in ("_abort_flow", "_finish_flow")
+                     and any("deactivate" in src(a) for a in list(c.args) + [k.value for k in c.keywords])]
+            if calls:
+                loops.append((l, calls[0]))
+    ctx.floor("C06.d.deactivate-by-id", SM, "flow-id dispatch loops that can deactivate", len(loops), 2)
+    for l, call in loops:
+        lv = l.target.id if isinstance(l.target, ast.Name) else None
+        skips = [i for i in ast.walk(l) if isinstance(i, ast.If) and "_is_child_activated_flow" in src(i.test) and lv and lv in src(i.test)
+                 and any(isinstance(x, ast.Continue) for x in i.body)]
+        guarded = any(isinstance(p_, ast.If) and "_is_child_activated_flow" in src(p_.test) for p_ in _anc(call, l))
+        ok = bool(skips) or guarded
+        ctx.check("C06.d.deactivate-by-id", SM, disp.name, first_line(call, 40) + " in loop over flow_id_states", ok,
+                  "a deactivation by flow id is applied to the reference instance only; restarted instances are left to it" if ok else
+                  "every instance with the flow id is aborted/finished with deactivate=True: the restarted instance (child of the reference instance) is not covered by the activation counter, "
+                  "so `deactivate x` by ONE of two activators kills the running instance without restart while the counter only drops to 1 - x stays `activated` with nothing running", line=call.lineno)
+        # (ii) the sender's uid is kept and used to consume its child entry
+        blk = getattr(l, "_parent", None)
+        while blk is not None and not any(isinstance(a, (ast.Assign, ast.Expr)) and "source_flow_instance_uid" in src(a) for a in getattr(blk, "body", [])):
+            blk = getattr(blk, "_parent", None)
+        kept = None
+        for a in getattr(blk, "body", []) if blk is not None else []:
+            if isinstance(a, ast.Assign) and isinstance(a.targets[0], ast.Name) and "source_flow_instance_uid" in src(a.value):
+                kept = a.targets[0].id
+        used = kept is not None and any(isinstance(c, ast.Call) and any(isinstance(x, ast.Name) and x.id == kept for x in ast.walk(c)) for c in ast.walk(l))
+        consumes = False
+        if used:
+            for c in ast.walk(l):
+                if isinstance(c, ast.Call) and any(isinstance(x, ast.Name) and x.id == kept for x in ast.walk(c)):
+                    if "child_flow_uids" in src(c):
+                        consumes = True
+                    h = find_function(t, src(c.func)) if isinstance(c.func, ast.Name) else None
+                    if h is not None and any(isinstance(r, ast.Call) and isinstance(r.func, ast.Attribute) and r.func.attr == "remove" and "child_flow_uids" in src(r.func.value) for r in ast.walk(h)):
+                        consumes = True
+        ctx.check("C06.d.deactivate-consumes-entry", SM, disp.name, first_line(call, 40) + " in loop over flow_id_states", consumes,
+                  "the explicit deactivation removes the sender's child entry for the reference instance (one release per activation)" if consumes else
+                  "the uid of the flow that sent the deactivation is discarded: its child_flow_uids entry for the reference instance survives the explicit `deactivate`, so when that flow "
+                  "ends it releases the same activation a second time - with two activators the counter reaches 0 and x stops although the other activator never gave it up", line=call.lineno)
